@@ -435,6 +435,8 @@ class CE:
             return list(v.row())
         if isinstance(v, (list, tuple, range, str, dict, set, frozenset)) or hasattr(v, "__next__"):
             return v
+        if type(v).__name__ in ("dict_items", "dict_keys", "dict_values"):
+            return list(v)
         if isinstance(v, (itertools.product, enumerate, zip, reversed, map, filter)):
             return v
         raise Unsupported(f"iteration over {type(v).__name__}")
@@ -813,6 +815,11 @@ class CE:
             return isinstance(a, Mat) and isinstance(b, Mat) and a.d == b.d
         if name in ("int8", "int64", "int32", "bool_"):
             return int(args[0])
+        if name == "outer":
+            a, b = args
+            av = a.flat() if isinstance(a, Mat) else list(self.iterate(a))
+            bv = b.flat() if isinstance(b, Mat) else list(self.iterate(b))
+            return Mat([[x * y for y in bv] for x in av], 2)
         if name == "arange":
             return Mat(list(range(*args)), 1)
         raise Unsupported(f"numpy.{name} at {pyfacts.where(f, e)}")
